@@ -31,9 +31,14 @@ def model_run(res, tier, wd):
         raise Machinery("Members.tla: %d states for %d cases (the Check action was not taken for every case)" % (
             r["distinct"], len(cases)))
     res.cov["Members"] = {"Members.Init": [len(cases), len(cases)], "Members.Check": [len(cases), len(cases)]}
+    res.extra["near_miss_non_members_rejected_by_the_definition_check"] = sum(c["nnon"] for c in cases)
     for c in cases:
         c["P"] = [[n, d] for n, d in zip(c["Pn"], c["Pd"])]
     cases.sort(key=lambda c: (c["cls"], c["P"]))
+    only = os.environ.get("C03_CLASSES")           # development aid (mutation experiments): restrict the classes
+    if only:
+        cases = [c for c in cases if c["cls"] in only.split(",")]
+        res.extra["restricted_to_classes"] = only
     return cases
 
 
@@ -60,8 +65,11 @@ def family(case):
 
 
 def programs(res, tier, wd, cases):
-    """(case, history) items.  quick: all histories of length <= 3 (plain), <= 3 sampled for the two richer event
-    alphabets; thorough: adds a seeded sample of the length-4 histories."""
+    """(case, history) items.
+    quick: every history of length <= 2 on every case; the length-3 histories of the class's event alphabet are
+    dealt out (seeded shuffle) over the parameter points of the class, so every length-3 history is replayed on at
+    least one parameter point of every class.
+    thorough: every history of length <= 3 on every case + a seeded sample of the length-4 histories."""
     rnd = random.Random(seed() + 3)
     H = {"plain": histories(res, wd, 3, False, 1, "plain"),
          "adjoint": histories(res, wd, 3, True, 1, "with adjoint"),
@@ -71,23 +79,23 @@ def programs(res, tier, wd, cases):
         H4 = {"plain": [h for h in histories(res, wd, 4, False, 1, "plain") if len(h) == 4],
               "adjoint": [h for h in histories(res, wd, 4, True, 1, "with adjoint") if len(h) == 4],
               "blocks": [h for h in histories(res, wd, 4, False, 2, "with 2 blocks") if len(h) == 4]}
-    items = []
+    groups = {}
     for c in cases:
-        fam = family(c)
-        hs = H[fam]
-        if tier != "thorough" and fam != "plain":
-            # the richer alphabets: all histories of length <= 2 and a seeded third of the length-3 ones
-            hs = [h for h in hs if len(h) <= 2] + rnd.sample([h for h in hs if len(h) == 3],
-                                                              len([h for h in hs if len(h) == 3]) // 3)
-        if tier != "thorough":
-            # quick: length-3 histories with three fresh free points are the expensive ones; keep them all for the
-            # first case of each class and a seeded half for the other parameter points
-            pass
-        items += [dict(cls=c["cls"], P=c["P"], h=h) for h in hs]
-        if H4:
-            k = 60 if fam == "plain" else 90
-            items += [dict(cls=c["cls"], P=c["P"], h=h) for h in rnd.sample(H4[fam], min(k, len(H4[fam])))]
+        groups.setdefault((c["cls"], family(c)), []).append(c)
+    items = []
+    for (cls, fam), cs in sorted(groups.items()):
+        short = [h for h in H[fam] if len(h) <= 2]
+        long3 = [h for h in H[fam] if len(h) == 3]
+        rnd.shuffle(long3)
+        for k, c in enumerate(cs):
+            hs = short + (long3 if tier == "thorough" else long3[k::len(cs)])
+            items += [dict(ci=c["ci"], cls=c["cls"], P=c["P"], h=h) for h in hs]
+            if H4:
+                items += [dict(ci=c["ci"], cls=c["cls"], P=c["P"], h=h) for h in rnd.sample(H4[fam], min(N4, len(H4[fam])))]
     return items
+
+
+N4 = 24      # length-4 histories sampled per case in the thorough tier
 
 
 def trace_key(t):
@@ -102,18 +110,13 @@ def validate(res, tier, traces, wd):
     for s in range(0, len(traces), BATCH):
         chunk = traces[s:s + BATCH]
         path = os.path.join(wd, "traces_%d.ndjson" % s)
-        write_ndjson(path, [{k: t[k] for k in ("cls", "P", "d", "NP", "NE", "roles", "fr", "cons", "lmis")} for t in chunk])
+        write_ndjson(path, [{k: t[k] for k in ("ci", "cls", "P", "d", "NP", "NE", "roles", "fr", "cons", "lmis")} for t in chunk])
         r = tlc("MembersTrace", cfg, os.path.join(wd, "trace"), env=dict(TRACE_FILE=path), timeout=3000)
         res.add_tlc("MembersTrace", r)
-        verdicts = {}
-        for rec in split_prints(r["out"]):
-            if isinstance(rec, list) and rec and rec[0] == "V":
-                verdicts[rec[1]] = rec
-        if len(verdicts) != len(chunk):
-            raise Machinery("trace validation gave %d verdicts for %d traces" % (len(verdicts), len(chunk)))
+        vd = verdicts(r["out"], len(chunk))
         for i, t in enumerate(chunk):
-            v = verdicts[i + 1]
-            out.append((t, v[2]["set"], v[3], v[4]["set"]))
+            v = vd[i + 1]
+            out.append((t, v["bad"], v["n"], v["tight"], v["ov"], v["unk"]))
         os.remove(path)
     return out
 
@@ -127,8 +130,11 @@ def judge(res, verdicts):
     tight_by_class, evals_by_class, cons_by_class = {}, {}, {}
     seen_sig = set()
     total_ev = 0
-    for t, bad, nev, tight in verdicts:
+    n_ov = n_unk = 0
+    for t, bad, nev, tight, ov, unk in verdicts:
         cls = t["cls"]
+        n_ov += ov
+        n_unk += unk
         names = {c["nm"] for c in t["cons"]} | {l["nm"] for l in t["lmis"]}
         total_ev += nev
         evals_by_class[cls] = evals_by_class.get(cls, 0) + nev
@@ -138,8 +144,7 @@ def judge(res, verdicts):
             nontriv.add((cls, pstr(t), t["hist"]))
         for cname, tag in sorted(map(tuple, bad)):
             if cname.startswith("MACHINERY"):
-                raise Machinery("sparse evaluation disagrees with LinForm!EVal on constraint %s (class %s, history %s)"
-                                % (tag, cls, t["hist"]))
+                raise Machinery("%s: %s (class %s, history %s)" % (cname, tag, cls, t["hist"]))
             sig = "C03|%s|%s|%s" % (cls, cname, tag)
             if sig in seen_sig:
                 continue        # one violation per signature: the first (shortest) history that shows it
@@ -151,6 +156,9 @@ def judge(res, verdicts):
     res.distinct_nontrivial = len(nontriv)
     res.evaluations = total_ev
     res.extra["member_assignment_evaluations"] = total_ev
+    res.extra["assignments_dropped_by_32bit_guard"] = n_ov
+    res.extra["constraint_evaluations_not_judged_by_32bit_guard"] = n_unk
+    res.inconclusive = n_unk
     res.extra["evaluations_by_class"] = dict(sorted(evals_by_class.items()))
     res.extra["constraint_families_tight_at_some_member"] = {k: sorted(v) for k, v in sorted(tight_by_class.items())}
     never = {k: sorted(n for n in cons_by_class[k] - tight_by_class.get(k, set())
@@ -201,12 +209,12 @@ def run(tier):
     step = max(1, len(verdicts) // 5)
     res.samples = [dict(cls=t["cls"], P=pstr(t), history=t["hist"], constraints=sorted({c["nm"] for c in t["cons"]}),
                         lmis=len(t["lmis"]), evaluations=nev, tight=sorted(tight))
-                   for t, bad, nev, tight in verdicts[::step][:5]]
+                   for t, bad, nev, tight, ov, unk in verdicts[::step][:5]]
     res.assumptions = [
         "members are rational and of dimension 1 or 2; a constraint that only excludes members needing dimension >= 3 "
         "or irrational data is not seen",
-        "free points range over a small grid (quick: 3 values in 1-D / 4 vectors in 2-D; thorough: 5 / 7), "
-        "stationary / fixed points over the 5 / 25 point grid {-1,-1/2,0,1/2,1}^dim",
+        "free points range over a small grid (quick: 3 values in 1-D / 4 vectors in 2-D; thorough: 5 / 5), "
+        "stationary / fixed points over {-1,-1/2,0,1/2,1} (1-D) and {-1/2,0,1/2}^2 (2-D)",
         "subgradients at kinks: both end points of the subdifferential, its mid point and 0 (normal cones truncated "
         "to [-2, 2])",
         "RsiEbFunction / ConvexQGFunction: the class is read as 'the inequality holds with respect to every "
